@@ -78,4 +78,12 @@ def build(tier, repo):
     chk.note_analysed("none_results", mr.none_result_rule(r15, w))
     chk.note_analysed("value_returns", mr.value_copy_rule(r15, w))
     r15.require(4)
+    r16 = chk.rule("C11-R16", "every path that returns the fresh result of an operator gives it a term (it keeps the operand's length)",
+                   "len(f) follows the broadcasting rule; mismatched dimensions are refused")
+    chk.note_analysed("fresh_result_operators", mr.fresh_result_rule(r16, w))
+    r16.require(4)
+    r17 = chk.rule("C11-R17", "_vecmax on the max side, _vecmin on the min side; the two reducers are mirror images",
+                   "f.value() equals the formula for max and for min alike")
+    chk.note_analysed("reducer_calls", mr.minmax_pairing_rule(r17, w))
+    r17.require(3)
     return chk
